@@ -399,6 +399,9 @@ func psCorpus() [][]*psOp {
 func runPersist(o opts) error {
 	w := &hx.Writer{Dir: o.out, Prop: o.prop, Imports: "Bytes Errors Consts CacheModel StateModel DbKey PersistModel CorrBase PersistCorr",
 		CaseType: "pcase", Mism: "persist_mismatches", Viol: "persist_violations", PerShard: 50}
+	if o.prop == "C09" {
+		w.Viol = "persist_violations_c09"
+	}
 	add := func(kind string, ops []*psOp) error {
 		term, results, err := psRunCase(ops)
 		if err != nil {
